@@ -358,6 +358,13 @@ func verifC05Witnesses() map[string][]*vs.Op {
 	chk.Definition.SessionName = "sb"
 	reg := &structs.RegisterRequest{Datacenter: "dc1", Node: "n1", ID: vs.NodeIDs["n1"], Address: "10.0.0.1", Checks: structs.HealthChecks{chk}}
 	return map[string][]*vs.Op{
+		"witness-txn-check-cas-on-missing-node-swallowed": {
+			vs.NewRegister(11, &structs.RegisterRequest{Datacenter: "dc1", Node: "n1", ID: vs.NodeIDs["n1"], Address: "10.0.0.1"}),
+			vs.NewTxn(14, structs.TxnOps{
+				&structs.TxnOp{KV: &structs.TxnKVOp{Verb: api.KVSet, DirEnt: structs.DirEntry{Key: "a", Value: []byte("v1")}}},
+				&structs.TxnOp{Check: &structs.TxnCheckOp{Verb: api.CheckCAS, Check: structs.HealthCheck{Node: "n3", CheckID: "c3", Name: "c3", Status: api.HealthPassing}}},
+			}),
+		},
 		"witness-session-check-flip-keeps-old-modify-index": {
 			vs.NewRegister(11, reg),
 			vs.NewSessCreate(13, &structs.Session{ID: sess, Name: "sb", Node: "n1", Behavior: structs.SessionKeysRelease}),
